@@ -61,3 +61,5 @@ Definition the_env : env := {|
     {| rs_name := (s "Validate output"); rs_kind := RAmalgamated [((s "Scope"), VScopes, SwAlways); ((s "Circular dependencies"), VCircular, SwAlways); ((s "Missing parameters"), VParamsExist, SwIgnoreParams); ((s "Missing services"), VServicesExist, SwIgnoreServices)]; rs_switch := SwAlways |};
     {| rs_name := (s "Generate code"); rs_kind := RCodeGen; rs_switch := SwAlways |}]
 |}.
+(* the resolver chain StepCompileDecorators is wired with (the model uses one chain for service and decorator arguments) *)
+Definition deco_arg_chain : list resolver_kind := [RNonString; RValue; RService; RTagged; RFixed (s "$gontainer") (s "rootGontainer"); RPattern].
